@@ -96,15 +96,26 @@ def cont2DGeom (g : Option (Option (List Rat) × Option (List Rat))) : Option Ge
 
 structure ImageObj where
   imShape : List Nat
-  order : Option Bool           -- `some true` = 'F', `some false` = 'C', `none` = a string numpy's reshape refuses
+  order : Option Bool           -- order used by `reshape`: `some true` = F, `some false` = C, `none` = refused
+  ravelOrder : Option Bool      -- order used by `ravel` (accepts 'K' as well)
   visual : Bool
 
+/-- numpy's order converter is case-insensitive on the single letters C, F, A, K.  For `reshape`:
+    'C' and 'A' read/write in C order (an array given to the model is C-contiguous, for which 'A' means C;
+    for a Fortran-contiguous argument 'A' means F — layouts are outside the model), 'F' in F order, 'K' and
+    every other string raise. -/
 def orderOfString (s : String) : Option Bool :=
-  if s = "C" then some false else if s = "F" then some true else Option.none
+  let t := s.toUpper
+  if t = "C" ∨ t = "A" then some false else if t = "F" then some true else Option.none
+
+/-- for `ravel`: 'K' is accepted too (C order on a C-contiguous array) -/
+def ravelOrderOfString (s : String) : Option Bool :=
+  let t := s.toUpper
+  if t = "C" ∨ t = "A" ∨ t = "K" then some false else if t = "F" then some true else Option.none
 
 /-- `Image2D.__init__`: `reduce(mul, im_shape)` raises for the empty tuple; nothing else is checked -/
 def imageCtor (imShape : List Nat) (order : String) (visual : Bool) : Option ImageObj :=
-  if imShape = [] then Option.none else some ⟨imShape, orderOfString order, visual⟩
+  if imShape = [] then Option.none else some ⟨imShape, orderOfString order, ravelOrderOfString order, visual⟩
 
 def ImageObj.shapes (o : ImageObj) : Shapes :=
   let d := prod o.imShape
@@ -133,7 +144,7 @@ def ImageObj.par2fun (o : ImageObj) (x : Arr) : Option Arr :=
 /-- `funvals.ravel(order)` -/
 def ImageObj.fun2par (o : ImageObj) (x : Arr) : Option Arr :=
   if o.visual then some x else
-  match o.order with
+  match o.ravelOrder with
   | Option.none => Option.none
   | some f => some (imageRavel f x)
 
@@ -160,6 +171,13 @@ def variablesOf : VarArg → Option (List String)
 /-- `Discrete(variables)`: both shapes are `(len(variables),)` -/
 def discreteShapes (vars : List String) : Shapes :=
   ⟨some [vars.length], some (prod [vars.length]), some [vars.length], some (prod [vars.length])⟩
+
+/-- `Geometry.variables` of a geometry that never had its variables set: generated from `par_dim`
+    (`none` = `ValueError`: `par_dim` is `None` without a grid) -/
+def defaultVariables (parDim : Option Nat) : Option (List String) :=
+  match parDim with
+  | Option.none => Option.none
+  | some n => variablesOf (.int n)
 
 /-! ## default geometries -/
 
